@@ -587,6 +587,96 @@ theorem whole_trace (M H lo : Nat) (pre post : List (Length × Length)) (spans :
       · exact c4 c h
     · exact q3 c h
 
+/-- No empty range in the (reversed) array. -/
+def NEall (racc : List TSRange) : Prop := ∀ r ∈ racc, r.start_byte < r.end_byte
+
+theorem addRev_ne (M H : Nat) (racc : List TSRange) (s e : Length) (h : Top M H s.bytes racc) (hn : NEall racc)
+    (h2 : s.bytes ≤ e.bytes) : NEall (addRev racc s e) := by
+  cases racc with
+  | nil =>
+    simp only [addRev]
+    split
+    · intro r hr; simp at hr; subst hr; simpa [mkRange] using ‹s.bytes < e.bytes›
+    · intro r hr; cases hr
+  | cons last rest =>
+    obtain ⟨a, b, c, d⟩ := h
+    have hl := hn last (by simp)
+    simp only [addRev]
+    split
+    · intro r hr
+      rcases List.mem_cons.1 hr with rfl | hr
+      · simp only; omega
+      · exact hn r (List.mem_cons_of_mem _ hr)
+    · split
+      · intro r hr
+        rcases List.mem_cons.1 hr with rfl | hr
+        · simpa [mkRange] using ‹s.bytes < e.bytes›
+        · exact hn r hr
+      · exact hn
+
+theorem calls_ne (M H : Nat) : ∀ (spans : List (Length × Length × Nat)) (lo : Nat) (racc : List TSRange),
+    Top M H lo racc → NEall racc → spansChain lo spans = true → (∀ x ∈ spans, SpanOK M H x) →
+    NEall (foldAdd racc (callsOf spans))
+  | [], lo, racc, _, hn, _, _ => by simpa [callsOf, foldAdd] using hn
+  | (s, e, l) :: rest, lo, racc, ht, hn, hc, hs => by
+    simp only [spansChain, Bool.and_eq_true, decide_eq_true_eq] at hc
+    obtain ⟨k1, k2, k3⟩ := hs (s, e, l) (by simp)
+    simp only at k1 k2 k3
+    have hrest : ∀ x ∈ rest, SpanOK M H x := fun x hx => hs x (List.mem_cons_of_mem _ hx)
+    rw [callsOf_cons]
+    by_cases hl : (l == 0) = true
+    · simp only [hl, if_true]
+      have ht' : Top M H s.bytes racc := by rw [hc.1]; exact ht
+      obtain ⟨_, _, t⟩ := addRev_top M H racc s e ht' k1 k2 k3
+      have := calls_ne M H rest e.bytes (addRev racc s e) t (addRev_ne M H racc s e ht' hn k2) hc.2 hrest
+      simpa [foldAdd] using this
+    · simp only [hl]
+      exact calls_ne M H rest e.bytes racc (ht.mono (by omega)) hn hc.2 hrest
+
+theorem whole_trace_ne (M H lo : Nat) (pre post : List (Length × Length)) (spans : List (Length × Length × Nat))
+    (hM : M ≤ H) (hlo : lo ≤ M)
+    (hpre : pre = [] ∨ ∃ p np : Length, pre = [(p, np)] ∧ p.bytes < np.bytes ∧ np.bytes = lo)
+    (hpost : post = [] ∨ ∃ a b : Length, post = [(a, b)] ∧ a.bytes = M ∧ b.bytes = H ∧ M < H)
+    (hc : spansChain lo spans = true) (hs : ∀ x ∈ spans, SpanOK M H x) :
+    NEall (foldAdd [] ((pre ++ callsOf spans) ++ post)) := by
+  have hpre' : Top M H lo (foldAdd [] pre) ∧ NEall (foldAdd [] pre) := by
+    rcases hpre with rfl | ⟨p, np, rfl, h1, h2⟩
+    · exact ⟨trivial, by intro r hr; cases hr⟩
+    · constructor
+      · simp only [foldAdd, List.foldl_cons, List.foldl_nil, addRev, h1, if_true, Top, mkRange]; omega
+      · simp only [foldAdd, List.foldl_cons, List.foldl_nil, addRev, h1, if_true]
+        intro r hr; simp at hr; subst hr; simpa [mkRange] using h1
+  obtain ⟨p3, p5⟩ := hpre'
+  obtain ⟨_, _, c3, _⟩ := calls_grow M H spans lo (foldAdd [] pre) p3 hc hs
+  have c5 := calls_ne M H spans lo (foldAdd [] pre) p3 p5 hc hs
+  rw [← foldAdd_append, ← foldAdd_append]
+  rcases hpost with rfl | ⟨a, b, rfl, h1, h2, h3⟩
+  · simpa [foldAdd] using c5
+  · simp only [foldAdd, List.foldl_cons, List.foldl_nil]
+    change NEall (addRev (foldAdd (foldAdd [] pre) (callsOf spans)) a b)
+    cases hr : foldAdd (foldAdd [] pre) (callsOf spans) with
+    | nil =>
+      simp only [addRev]
+      split
+      · intro r hr'; simp at hr'; subst hr'; simp [mkRange]; omega
+      · intro r hr'; cases hr'
+    | cons last rest =>
+      rw [hr] at c3 c5
+      obtain ⟨t1, t2, t3, t4⟩ := c3
+      have hl := c5 last (by simp)
+      simp only [addRev]
+      split
+      · intro r hr'
+        rcases List.mem_cons.1 hr' with rfl | hr'
+        · simp only; omega
+        · exact c5 r (List.mem_cons_of_mem _ hr')
+      · split
+        · intro r hr'
+          rcases List.mem_cons.1 hr' with rfl | hr'
+          · simp [mkRange]; omega
+          · exact c5 r hr'
+        · exact c5
+
 /-! ## The walk of `ts_subtree_get_changed_ranges` -/
 
 theorem iterNew_end (t : Tree) : (iterNew t).endPosition.bytes = t.totalBytes := by
@@ -645,15 +735,16 @@ theorem pre_shape (al : AliasTable) (fixed : Bool) (old new : Tree) (diffs : Lis
 theorem post_shape (al : AliasTable) (fixed : Bool) (old new : Tree) (diffs : List TSRange) :
     (changedRanges al fixed old new diffs).post = [] ∨
     ∃ a b : Length, (changedRanges al fixed old new diffs).post = [(a, b)] ∧
-      a.bytes = min old.totalBytes new.totalBytes ∧ b.bytes = max old.totalBytes new.totalBytes := by
+      a.bytes = min old.totalBytes new.totalBytes ∧ b.bytes = max old.totalBytes new.totalBytes ∧
+      min old.totalBytes new.totalBytes < max old.totalBytes new.totalBytes := by
   unfold changedRanges changedTrace
   simp only
   split
   · rename_i h; rw [totalSize_bytes, totalSize_bytes] at h
-    exact Or.inr ⟨_, _, rfl, by rw [totalSize_bytes]; omega, by rw [totalSize_bytes]; omega⟩
+    exact Or.inr ⟨_, _, rfl, by rw [totalSize_bytes]; omega, by rw [totalSize_bytes]; omega, by omega⟩
   · split
     · rename_i h; rw [totalSize_bytes, totalSize_bytes] at h
-      exact Or.inr ⟨_, _, rfl, by rw [totalSize_bytes]; omega, by rw [totalSize_bytes]; omega⟩
+      exact Or.inr ⟨_, _, rfl, by rw [totalSize_bytes]; omega, by rw [totalSize_bytes]; omega, by omega⟩
     · exact Or.inl rfl
 
 /-- The calls of the whole function grow the array, are admissible, and stay inside the longer tree. -/
@@ -674,7 +765,31 @@ theorem walk_calls (al : AliasTable) (fixed : Bool) (old new : Tree) (diffs : Li
     simp only [List.reverse_nil, spansEnd, loopStart]
     split <;> (try split) <;> simp only <;> omega
   exact whole_trace _ _ (loopStart old new) _ _ _ (by omega) (of_decide_eq_true hentry)
-    (pre_shape al fixed old new diffs) (post_shape al fixed old new diffs) hchain
+    (pre_shape al fixed old new diffs)
+    ((post_shape al fixed old new diffs).imp id (fun ⟨a, b, h1, h2, h3, _⟩ => ⟨a, b, h1, h2, h3⟩)) hchain
     (walk_trace al fixed old new diffs hso hsn hentry hfuel)
+
+theorem walk_chain (al : AliasTable) (fixed : Bool) (old new : Tree) (diffs : List TSRange) :
+    spansChain (loopStart old new) (changedRanges al fixed old new diffs).spans = true := by
+  unfold changedRanges changedTrace
+  simp only
+  refine (mainLoop_chain al fixed diffs _ (loopStart old new) _ _ (by simp [spansChain]) ?_).1
+  simp only [List.reverse_nil, spansEnd, loopStart]
+  split <;> (try split) <;> simp only <;> omega
+
+/-- No reported range is empty. -/
+theorem walk_ne (al : AliasTable) (fixed : Bool) (old new : Tree) (diffs : List TSRange)
+    (hso : AllSized old) (hsn : AllSized new) (hentry : entryOK old new = true)
+    (hfuel : (changedRanges al fixed old new diffs).fuelOut = false) :
+    ∀ r ∈ (changedRanges al fixed old new diffs).ranges, r.start_byte < r.end_byte := by
+  have hr : (changedRanges al fixed old new diffs).ranges =
+      (foldAdd [] (((changedRanges al fixed old new diffs).pre ++ callsOf (changedRanges al fixed old new diffs).spans) ++
+        (changedRanges al fixed old new diffs).post)).reverse := by
+    rw [← foldAdd_append]; rfl
+  intro r hr'
+  rw [hr] at hr'
+  exact whole_trace_ne _ _ (loopStart old new) _ _ _ (by omega) (of_decide_eq_true hentry)
+    (pre_shape al fixed old new diffs) (post_shape al fixed old new diffs) (walk_chain al fixed old new diffs)
+    (walk_trace al fixed old new diffs hso hsn hentry hfuel) r (List.mem_reverse.1 hr')
 
 end TsVerif.C04
